@@ -300,7 +300,8 @@ def validate_tables(real_bn, nctx, region):
         for nm, v in zip(names, idx):
             if base[v] is not None:
                 continue        # a variable fixed in the base space: its function is the constant (or the dynamics' verdict on a conflict)
-            f = g.mk_update_function(nm)
+            free_input = real_bn.get_update_function(nm) is None       # no update function: biobalm reads it as "never changes"
+            f = None if free_input else g.mk_update_function(nm)
             for vals in itertools.product((0, 1), repeat=len(names)):
                 x = [0 if b is None else b for b in base]
                 skip = False
@@ -311,7 +312,7 @@ def validate_tables(real_bn, nctx, region):
                     x[i] = b
                 if skip:
                     continue
-                val = bool(f.r_restrict(dict(zip(names, vals))).is_true())
+                val = bool(x[v]) if free_input else bool(f.r_restrict(dict(zip(names, vals))).is_true())
                 if CTX.ev(net.fval(v, tuple(x))) != val:
                     CTX.mismatch.append((region, f"update function of {nm} differs from the network's in state {tuple(x)}"))
                     return
@@ -470,6 +471,8 @@ class _BNFacade:
         if any(nm not in net.names for nm in names):
             raise Unmodelled("network over variables that are not part of the symbolic network")
         if set(names) == set(net.names):
+            if any(r.get_update_function(nm) is None for nm in names):
+                validate_tables(r, ((None,) * net.n, None), "from_bnet (free inputs)")
             return NetProxy(r, ((None,) * net.n, None))
         # a part of the symbolic network (its variables must be backward-closed: checked by the caller's family)
         return NetProxy(r, ((None,) * net.n, frozenset(net.names.index(nm) for nm in names)))
